@@ -272,6 +272,8 @@ def main():
             if f is not None:
                 for nm in f.__code__.co_names:
                     g = getattr(mod, nm, None)
+                    if g is None:
+                        g = getattr(f, "__globals__", {}).get(nm)      # a unit shared from another property's module
                     if "REPLAY" in nm and callable(g) and all(g is not c[1] for c in cands):
                         cands.append((nm, g))
             for j, (tag, fn) in enumerate(cands[:4]):
